@@ -37,7 +37,7 @@ func Load(repo string, patterns []string, preludeDir string) (*Engine, error) {
 		return nil, fmt.Errorf("package load errors: %s", strings.Join(errs[:min(len(errs), 5)], "; "))
 	}
 	prog, spkgs := ssautil.Packages(pkgs, ssa.GlobalDebug)
-	eng := &Engine{Prog: prog, Pkgs: map[string]*ssa.Package{}, Contracts: map[string]*UnitSpec{}, SpecFuns: map[string]*SpecFun{}, Lemmas: map[string]*SpecFun{}, Consts: map[string]string{}, Funcs: map[string]*ssa.Function{}}
+	eng := &Engine{Prog: prog, Pkgs: map[string]*ssa.Package{}, Contracts: map[string]*UnitSpec{}, SpecFuns: map[string]*SpecFun{}, Lemmas: map[string]*SpecFun{}, Consts: map[string]string{}, Funcs: map[string]*ssa.Function{}, GlobalGhosts: map[string]string{"$held": "intset"}}
 	if len(pkgs) > 0 {
 		eng.Fset = pkgs[0].Fset
 	}
@@ -112,6 +112,11 @@ func (eng *Engine) addContracts(cf *ContractFile) {
 	for k, v := range cf.Consts {
 		eng.Consts[k] = v
 	}
+	for k, v := range cf.GlobalGhosts {
+		eng.GlobalGhosts[k] = v
+	}
+	eng.Guarded = append(eng.Guarded, cf.Guarded...)
+	eng.Writers = append(eng.Writers, cf.Writers...)
 }
 
 func (eng *Engine) indexFn(fn *ssa.Function) {
@@ -504,6 +509,9 @@ func SolveAll(obls []*Obligation, timeoutMs int, need int) {
 		go func(i int, o *Obligation) {
 			defer wg.Done()
 			defer func() { <-sem }()
+			if o.Res.Verdict != "" { // decided syntactically
+				return
+			}
 			id := fmt.Sprintf("q%d_%s", i, sanitize(o.Name))
 			r, _ := Solve(o.Query, id, timeoutMs, o.Models, need)
 			o.Res = r
@@ -561,4 +569,100 @@ func (eng *Engine) LemmaObligations(reports []*UnitReport, prop string) []*Oblig
 		}
 	}
 	return out
+}
+
+// WriterObligations checks the writers declarations syntactically over every function of the declaring package.
+func (eng *Engine) WriterObligations(prop string) []*Obligation {
+	var out []*Obligation
+	for _, wd := range eng.Writers {
+		sp := eng.Pkgs[wd.Pkg]
+		if sp == nil {
+			continue
+		}
+		mine := false
+		for _, p := range wd.Props {
+			if p == prop {
+				mine = true
+			}
+		}
+		if !mine {
+			continue
+		}
+		allowed := map[string]bool{}
+		for _, a := range wd.Allowed {
+			allowed[a] = true
+		}
+		var offenders []string
+		names := sortedKeys(eng.Funcs)
+		for _, name := range names {
+			fn := eng.Funcs[name]
+			if rootFn(fn).Pkg != sp {
+				continue
+			}
+			rootName := canonFn(rootFn(fn))
+			if allowed[name] || allowed[rootName] {
+				continue
+			}
+			if w := writesField(fn, wd); w != "" {
+				offenders = append(offenders, name+": "+w)
+			}
+		}
+		o := &Obligation{Name: fmt.Sprintf("%s.%s.%s/inv:writers", wd.Pkg, wd.Type, wd.Field), Kind: "inv:writers", Unit: wd.Pkg, Props: []string{prop}, PC: True, Goal: True,
+			Text: "only " + strings.Join(wd.Allowed, ", ") + " write " + wd.Type + "." + wd.Field}
+		if len(offenders) == 0 {
+			o.Res = SolverResult{Verdict: "unsat", Backend: "syntactic-sweep"}
+		} else {
+			o.Res = SolverResult{Verdict: "sat", Backend: "syntactic-sweep", Output: "writers outside the declared set: " + strings.Join(offenders, "; ")}
+		}
+		out = append(out, o)
+	}
+	return out
+}
+
+// writesField reports how fn writes the declared field (assignment, or update of the map it holds).
+func writesField(fn *ssa.Function, wd WritersDecl) string {
+	isField := func(v ssa.Value) bool {
+		fa, ok := v.(*ssa.FieldAddr)
+		if !ok {
+			return false
+		}
+		pt, ok := fa.X.Type().Underlying().(*types.Pointer)
+		if !ok {
+			return false
+		}
+		nm, ok := pt.Elem().(*types.Named)
+		if !ok || nm.Obj().Name() != wd.Type || nm.Obj().Pkg() == nil || nm.Obj().Pkg().Name() != wd.Pkg {
+			return false
+		}
+		st := nm.Underlying().(*types.Struct)
+		return st.Field(fa.Field).Name() == wd.Field
+	}
+	fromField := func(v ssa.Value) bool {
+		if u, ok := v.(*ssa.UnOp); ok {
+			return isField(u.X)
+		}
+		return false
+	}
+	for _, b := range fn.Blocks {
+		for _, ins := range b.Instrs {
+			switch ins := ins.(type) {
+			case *ssa.Store:
+				if isField(ins.Addr) {
+					return "assigns the field"
+				}
+				if ia, ok := ins.Addr.(*ssa.IndexAddr); ok && fromField(ia.X) {
+					return "writes an element of the slice held by the field"
+				}
+			case *ssa.MapUpdate:
+				if fromField(ins.Map) {
+					return "updates the map held by the field"
+				}
+			case *ssa.Call:
+				if bi, ok := ins.Call.Value.(*ssa.Builtin); ok && bi.Name() == "delete" && fromField(ins.Call.Args[0]) {
+					return "deletes from the map held by the field"
+				}
+			}
+		}
+	}
+	return ""
 }
